@@ -87,17 +87,20 @@ Theorem C05_watch_never_hangs : forall pa l sigma S P c, fits_params pa ->
 Proof. exact decide_never_hangs. Qed.
 Print Assumptions C05_watch_never_hangs.
 
-(* the executable oracle accepts what the model produces *)
+(* the executable oracle accepts every case on which model and implementation agree — ring cases, hub-alone
+   scripts and backend runs alike: for every parameter set, cache size l >= 1, initial revision and script
+   (labels interleaved with observations), if every observation agrees with the model's state at that point
+   (c05_check; it also requires every slot of the script to be the one the model's sequencer takes there) then
+   the property evaluated on the observations holds (c05_oracle = None): the received events are a prefix of
+   ideal S P sigma over the implementation's own successful writes, and equal to it at an open, settled stream *)
+Theorem C05_oracle_sound : forall c, c05_valid c -> c05_check c = true -> c05_oracle c = None.
+Proof. exact c05_oracle_sound. Qed.
+Print Assumptions C05_oracle_sound.
+
 Theorem C05_oracle_sound_ring : forall l revs S obs,
   c05_valid (KRing l revs S obs) -> c05_check (KRing l revs S obs) = true -> c05_oracle (KRing l revs S obs) = None.
 Proof. exact c05_oracle_sound_ring. Qed.
 Print Assumptions C05_oracle_sound_ring.
-
-Theorem C05_oracle_prefix_test_partial : forall pa l c0 ls i w, 0 < l ->
-  nth_error (s_ws (run pa ls (init l c0))) i = Some w -> accepted w = true ->
-  prefixb (concat (w_got w)) (ideal (w_S w) (w_P w) (w_base w) (s_cached (run pa ls (init l c0)))) = true.
-Proof. exact model_passes_prefix_test. Qed.
-Print Assumptions C05_oracle_prefix_test_partial.
 
 (* ---------- non-vacuity ---------- *)
 
@@ -123,6 +126,18 @@ Example C05_complete_inhabited :
   | None => False
   end.
 Proof. vm_compute. repeat split; discriminate. Qed.
+
+(* C05_oracle_sound is not vacuous on pipeline cases: a script with a replaying watcher and two observations, the
+   second one at an open, settled stream (where the oracle demands completeness), passes the check *)
+Example C05_oracle_sound_inhabited :
+  let obs g q := RObs (mkObs 0%nat (Some 1) None (Some g) (Some false) q) in
+  let c := KRun real_params 2 0
+             (map RL (c05_prod 1 ++ [LHubItem []] ++ c05_prod 2 ++ [LHubItem []; LWatchSub 2 [47]; LWatchRead 0]) ++
+              map RL (c05_prod 3 ++ [LWatchSpawn 0; LConsume 0]) ++ [obs [GE (to_event (c05_we 2))] false] ++
+              map RL [LHubItem []; LProc 0; LProc 0; LConsume 0] ++
+              [obs [GE (to_event (c05_we 2)); GE (to_event (c05_we 3))] true]) in
+  c05_valid c /\ c05_check c = true /\ c05_oracle c = None.
+Proof. vm_compute. repeat split. Qed.
 
 (* the overflow run on the repaired hub (capacities 1/1/1): batch 2 finds the buffer full, the subscriber is
    closed at once, batch 3 is not offered to it: the client receives revision 1 and then the close *)
